@@ -169,6 +169,30 @@ def check_flush(ctx, fb):
     need = ["close_db_connection", "Database>::close"]
     for nd in need:
         ctx.check(any(nd in s for s in seen), "R16-2", "flush path via %s" % nd, "on the path", "%s is not on RLN::flush's call path: %s" % (nd, sorted(seen)))
+    # must-pass-through: an acknowledged flush has gone through the store's flush on every success path
+    chain = [(r"^rln::public::RLN::flush$", r"ZerokitMerkleTree>::close_db_connection$"),
+             (r"PmTree as zerokit_utils::ZerokitMerkleTree>::close_db_connection$", r"Database>?::close$"),
+             (r"SledDB as (vacp2p_)?pmtree::Database>::close$", r"sled::Db::flush$|sled::db::Db::flush$|sled::Tree::flush$")]
+    for frx, crx in chain:
+        f = fb.one(frx)
+        ctx.touch(f)
+        e0 = Engine(fb, inline=lambda i: False)
+        bad = None
+        n_ok = 0
+        for p in e0.run(f):
+            if p.kind != "return":
+                continue
+            rv = e0.value_of(p.store, p.ret)
+            cs = p.calls(crx)
+            if known_ok(rv) is True:
+                n_ok += 1
+                if not cs or not any(cond_map(p).get(("ok", ("call", c[1], c[2]))) is True or any(a[0] == "ok" and contains(a[1], ("call", c[1], c[2])) and v is True for a, v in p.conds()) for c in cs):
+                    bad = p
+            elif known_ok(rv) is None and not (isinstance(rv, tuple) and rv[0] in ("call", "map_err") and cs and contains(rv, ("call", cs[0][1], cs[0][2]))):
+                bad = p
+        ctx.check(bad is None, "R16-2", "flush must pass through: %s" % f.path.split("::")[-1].join(["", ""]) if False else "flush passes through %s" % crx.split("$")[0][-28:] + " in " + f.path[-48:],
+                  "every success path calls it and requires its success", "%s can report success without %s having been called successfully (a path returns Ok before the store is flushed)" % (
+                      f.path, crx), loc(f, bad.site) if bad else loc(f))
     # set_metadata: store first, then memory
     it = fb.one(r"PmTree as zerokit_utils::ZerokitMerkleTree>::set_metadata$")
     ctx.touch(it)
